@@ -5,6 +5,7 @@ package main
 import (
 	"fmt"
 	"go/ast"
+	"go/token"
 	"sort"
 	"strings"
 )
@@ -48,6 +49,81 @@ func decPbKind(t ast.Expr) string {
 		return "scalar"
 	}
 	return "other:" + exprString(t)
+}
+
+// decNilGuard reports whether the code in n - including the same-package
+// functions / methods it calls, up to `depth` levels - compares with nil
+// (`== nil` or `!= nil`, either operand order) a value that `match` accepts.
+// A local name stands for the expression it was assigned from (`p :=
+// a.pendingBatch; if p != nil`), so match sees both the name and its source.
+func decNilGuard(files []*ast.File, n ast.Node, match func(string) bool, depth int) bool {
+	alias := map[string]string{}
+	ast.Inspect(n, func(m ast.Node) bool {
+		if as, ok := m.(*ast.AssignStmt); ok && len(as.Lhs) == len(as.Rhs) {
+			for i, l := range as.Lhs {
+				if id, ok := l.(*ast.Ident); ok {
+					alias[id.Name] = exprString(as.Rhs[i])
+				}
+			}
+		}
+		return true
+	})
+	found := false
+	var callees []string
+	ast.Inspect(n, func(m ast.Node) bool {
+		switch x := m.(type) {
+		case *ast.BinaryExpr:
+			if x.Op != token.EQL && x.Op != token.NEQ {
+				return true
+			}
+			var other ast.Expr
+			if id, ok := x.Y.(*ast.Ident); ok && id.Name == "nil" {
+				other = x.X
+			} else if id, ok := x.X.(*ast.Ident); ok && id.Name == "nil" {
+				other = x.Y
+			}
+			if other != nil {
+				s := exprString(other)
+				if match(s) || (alias[s] != "" && match(alias[s])) {
+					found = true
+				}
+			}
+		case *ast.CallExpr:
+			callees = append(callees, decCallName(x))
+		}
+		return true
+	})
+	if found || depth == 0 {
+		return found
+	}
+	for _, f := range files {
+		for _, d := range f.Decls {
+			fd, ok := d.(*ast.FuncDecl)
+			if !ok || fd.Body == nil {
+				continue
+			}
+			for _, c := range callees {
+				if c == fd.Name.Name && decNilGuard(files, fd.Body, match, depth-1) {
+					return true
+				}
+			}
+		}
+	}
+	return false
+}
+
+// decParamName returns the name of the i-th parameter of fd.
+func decParamName(fd *ast.FuncDecl, i int) string {
+	k := 0
+	for _, f := range fd.Type.Params.List {
+		for _, n := range f.Names {
+			if k == i {
+				return n.Name
+			}
+			k++
+		}
+	}
+	return ""
 }
 
 // decHasNilTest reports whether a statement list contains `if <expr> == nil`.
@@ -173,7 +249,15 @@ func genC19Pb() {
 			fail("order.%s not found", fn)
 			continue
 		}
-		has := decHasNilTest(fd.Body, "details")
+		// the message argument is the only parameter of the Ask / Bid
+		// parser and the second one of ParseRPCServerOrder, whatever it
+		// is called
+		idx := 0
+		if fn == "ParseRPCServerOrder" {
+			idx = 1
+		}
+		param := decParamName(fd, idx)
+		has := param != "" && decNilGuard(order, fd.Body, func(s string) bool { return s == param }, 0)
 		l.p("def %sNilTest : Bool := %s", fn, decLeanBool(has))
 		nilChecks = nilChecks && has
 	}
@@ -215,11 +299,9 @@ func genC19Pb() {
 		if cc := decTypeSwitchCase(fd, "ServerAuctionMessage_Sign"); cc == nil {
 			fail("rpcServer.handleServerMessage: Sign case not found")
 		} else {
-			for _, s := range cc.Body {
-				if decHasNilTest(s, "batch") {
-					signTest = true
-				}
-			}
+			// the pending batch, under whatever local name
+			signTest = decNilGuard(root, &ast.BlockStmt{List: cc.Body},
+				func(e string) bool { return strings.HasSuffix(e, "PendingBatch()") }, 1)
 		}
 	}
 	l.p("def prepareParseErrCallee : String := %q", callee)
@@ -233,16 +315,14 @@ func genC19Pb() {
 	} else if cc := decTypeSwitchCase(fd, "ServerAuctionMessage_Sign"); cc == nil {
 		fail("SidecarAcceptor.handleServerMessage: Sign case not found")
 	} else {
-		for _, s := range cc.Body {
-			if decHasNilTest(s, "a.pendingBatch") {
-				accSign = true
-			}
-		}
+		// tested in the case itself or in a helper it calls
+		accSign = decNilGuard(root, &ast.BlockStmt{List: cc.Body},
+			func(e string) bool { return strings.HasSuffix(e, ".pendingBatch") }, 2)
 	}
 	if fd := findFunc(root, "SidecarAcceptor.matchSign"); fd == nil {
 		fail("SidecarAcceptor.matchSign not found")
 	} else {
-		accMatch = decHasNilTest(fd.Body, "a.pendingBatch")
+		accMatch = decNilGuard(root, fd.Body, func(e string) bool { return strings.HasSuffix(e, ".pendingBatch") }, 0)
 	}
 	l.p("def acceptorSignNilTest : Bool := %s", decLeanBool(accSign))
 	l.p("def acceptorMatchSignNilTest : Bool := %s", decLeanBool(accMatch))
